@@ -133,11 +133,16 @@ Emit == /\ phase = "compute" /\ pending # Absent
                f2 == IF wtex THEN Put(f1, Key(b, "tex"), tex) ELSE f1
                f3 == IF lpdf THEN Put(f2, Key(b, "pdf"), pdf) ELSE f2
                f4 == IF lpng THEN Put(f3, Key(b, "png"), png) ELSE f3
-           IN /\ files' = f4
-              /\ wrote' = wrote \cup (IF wcsv THEN {Key(b, "csv")} ELSE {}) \cup (IF wtex THEN {Key(b, "tex")} ELSE {})
-              /\ launched' = launched \cup (IF lpdf THEN {Key(b, "pdf")} ELSE {}) \cup (IF lpng THEN {Key(b, "png")} ELSE {})
-              /\ out' = Append(out, [name |-> Name(b), var |-> VarCtx(b), dim |-> Dim(b),
-                                     bins |-> hs[i].bins, oor |-> hs[i].oor])
+           IN IF IsHist(b)
+              THEN /\ files' = f4
+                   /\ wrote' = wrote \cup (IF wcsv THEN {Key(b, "csv")} ELSE {}) \cup (IF wtex THEN {Key(b, "tex")} ELSE {})
+                   /\ launched' = launched \cup (IF lpdf THEN {Key(b, "pdf")} ELSE {}) \cup (IF lpng THEN {Key(b, "png")} ELSE {})
+                   /\ out' = Append(out, [name |-> Name(b), var |-> VarCtx(b), dim |-> Dim(b),
+                                          bins |-> hs[i].bins, oor |-> hs[i].oor])
+              \* a number: named by the outer MakeFilename, selected by no element of the chain - nothing happens
+              ELSE /\ UNCHANGED <<files, wrote, launched>>
+                   /\ out' = Append(out, [name |-> Name(b), var |-> VarCtx(b), dim |-> 0,
+                                          bins |-> R(hs[i].bins[1], hs[i].bins[2]), oor |-> 0])
         /\ pending' = Absent
         /\ UNCHANGED <<brs, bs, src, useCache, cache, loaded, run, data, tpl, phase, pos, block, bi, hs, h>>
 
@@ -162,14 +167,16 @@ BufBound == Len(block) <= bs
 PerBranch == phase \in {"compute", "done"} =>
                \A i \in 1..Len(brs) :
                  LET b == brs[i] IN
-                 /\ \A cell \in Cells(EdgesOf(b)) : Get(hs[i].bins, cell) = Expected(b, data)[cell]
-                 /\ hs[i].oor = Outside(b, data)
-                 /\ SumB(hs[i].bins, Dim(b)) + hs[i].oor = Len(data)
+                 IF IsHist(b)
+                 THEN /\ \A cell \in Cells(EdgesOf(b)) : Get(hs[i].bins, cell) = Expected(b, data)[cell]
+                      /\ hs[i].oor = Outside(b, data)
+                      /\ SumB(hs[i].bins, Dim(b)) + hs[i].oor = Len(data)
+                 ELSE hs[i] = HistRef(b, data, ED)
 \* after a run every plot has its four files, made from the CURRENT data and template, and there is nothing else
-LastOf(b) == CHOOSE i \in 1..Len(brs) : Name(brs[i]) = Name(b) /\ \A j \in (i + 1)..Len(brs) : Name(brs[j]) # Name(b)
+LastOf(b) == CHOOSE i \in Plots(brs) : Name(brs[i]) = Name(b) /\ \A j \in Plots(brs) : j > i => Name(brs[j]) # Name(b)
 FilesRef == phase = "done" =>
-              /\ DOMAIN files = {Key(brs[i], e) : i \in 1..Len(brs), e \in {"csv", "tex", "pdf", "png"}}
-              /\ \A i \in 1..Len(brs) :
+              /\ DOMAIN files = {Key(brs[i], e) : i \in Plots(brs), e \in {"csv", "tex", "pdf", "png"}}
+              /\ \A i \in Plots(brs) :
                    LET b == brs[i]
                    IN /\ files[Key(b, "csv")] = File(CsvOf(b, hs[LastOf(b)]))
                       /\ files[Key(b, "tex")] = File(TexOf(b, tpl))
@@ -186,9 +193,9 @@ RedoRef == phase = "done" =>
              /\ \A k \in launched : k[2] = "png" => (<<k[1], "pdf">> \in launched \/ Len(h) = 0)
              /\ \A k \in wrote : k[2] \in {"csv", "tex"}
              /\ \A k \in DOMAIN files : (k[2] = "pdf" /\ (<<k[1], "csv">> \in wrote \/ <<k[1], "tex">> \in wrote)) => k \in launched
-             /\ (Len(h) > 0 /\ h[Len(h)].tpl # tpl) => \A i \in 1..Len(brs) : Key(brs[i], "tex") \in wrote
-             /\ Len(h) = 0 => (wrote = {Key(brs[i], e) : i \in 1..Len(brs), e \in {"csv", "tex"}}
-                               /\ launched = {Key(brs[i], e) : i \in 1..Len(brs), e \in {"pdf", "png"}})
+             /\ (Len(h) > 0 /\ h[Len(h)].tpl # tpl) => \A i \in Plots(brs) : Key(brs[i], "tex") \in wrote
+             /\ Len(h) = 0 => (wrote = {Key(brs[i], e) : i \in Plots(brs), e \in {"csv", "tex"}}
+                               /\ launched = {Key(brs[i], e) : i \in Plots(brs), e \in {"pdf", "png"}})
 
 \* the whole run, however it was scheduled (block size, branch order of the fills), is the declarative run:
 \* files, writes, launches and results are functions of the directory before, the data and the template
@@ -225,18 +232,21 @@ EY == <<0, 4>>
 \* (no empty run: without a value no variable ever describes the result, the plots of such a run have no names;
 \* what the output chain does with unnamed values is C10 / X05)
 DataQuick == {<<EvA>>, <<EvA, EvB>>, <<EvB, EvA>>, <<EvA, EvB, EvC>>, <<EvD, EvD, EvC>>}
+DataMC == {<<EvA>>, <<EvA, EvB, EvC>>, <<EvD, EvD, EvC>>}
 DataExport == {<<EvB>>, <<EvA, EvB>>, <<EvA, EvB, EvC>>, <<EvD, EvD, EvC>>}
 DataExport3 == {<<EvA, EvB>>, <<EvA, EvB, EvC>>, <<EvB, EvA>>}
-BrExport3 == {<<Br("positron", "x"), Br("neutron", "xy")>>, <<Br("neutron", "y"), Br("positron", "xy"), Br("positron", "y")>>}
-AllBr == {Br("positron", "x"), Br("neutron", "x"), Br("positron", "y"), Br("positron", "xy"), Br("neutron", "xy")}
+BrExport3 == {<<Br("positron", "x"), Br("neutron", "xy")>>, <<BrMean("neutron", "y"), Br("positron", "x"), BrMean("positron", "x")>>, <<Br("neutron", "y"), Br("positron", "xy"), Br("positron", "y")>>}
+AllBr == {Br("positron", "x"), Br("neutron", "x"), Br("positron", "y"), Br("positron", "xy"), Br("neutron", "xy"),
+          BrMean("positron", "x"), BrMean("neutron", "y")}
 RECURSIVE Lists(_, _)
 Lists(S, n) == IF n = 0 THEN {<<>>} ELSE LET L == Lists(S, n - 1) IN L \cup {Append(l, s) : l \in {x \in L : Len(x) = n - 1}, s \in S}
 \* plots of one analysis have different names (two branches writing one file race in the asynchronous converter)
-Distinct(l) == \A i \in 1..Len(l), j \in 1..Len(l) : i # j => Name(l[i]) # Name(l[j])
+Distinct(l) == \A i \in Plots(l), j \in Plots(l) : i # j => Name(l[i]) # Name(l[j])
 BrQuick == {l \in Lists(AllBr, 2) : l # <<>> /\ Distinct(l)}
 BrThorough == {l \in Lists(AllBr, 3) : l # <<>> /\ Distinct(l)}
 BrExport == {<<Br("positron", "x")>>, <<Br("neutron", "xy")>>,
              <<Br("positron", "x"), Br("neutron", "x")>>, <<Br("positron", "y"), Br("positron", "xy")>>,
              <<Br("neutron", "xy"), Br("positron", "xy"), Br("neutron", "x")>>,
-             <<Br("neutron", "x"), Br("positron", "y"), Br("positron", "xy"), Br("positron", "x")>>}
+             <<Br("neutron", "x"), Br("positron", "y"), Br("positron", "xy"), Br("positron", "x")>>,
+             <<BrMean("positron", "x"), Br("positron", "x")>>, <<Br("neutron", "xy"), BrMean("neutron", "y"), Br("neutron", "y")>>}
 =============================================================================
